@@ -1,7 +1,13 @@
 import HqModel.Lemmas.JobSteps
 /-!
-History invariant of the job layer: the number of terminal reports of every task in the event list of a
-run, related to the task's state. Basis of `c01_outcome_once` (C01).
+History-level facts about runs of the job layer.
+
+* the job list as a finite map (`findJob` after `replaceJob` / append / filter),
+* a decomposition of every `step` into elementary job transitions (`JobOp`, `Puts`, `Shape`) that is shared by
+  the history invariants of C01 (this file) and C13 (`JobCompleted.lean`),
+* the invariant `Hist`: the number of terminal reports of every task in the event list of a run equals what
+  the task's state says, and every `finished` report is preceded by a `started` report.
+  Basis of `c01_outcome_once` (C01).
 -/
 namespace HqModel.Job
 
@@ -44,7 +50,7 @@ theorem lookup_setState (ts : List (Nat × TState)) (t k : Nat) (b : TState) :
         simp only [setState, hq, if_false, lookup, if_true]
         rw [ih]; simp
       · by_cases hqk : q = k
-        · simp [setState, hq, lookup, hqk, hk]
+        · simp [setState, lookup, hqk, hk]
         · simp only [setState, hq, if_false, lookup, hqk, hk]
           rw [ih]; simp [hk]
 
@@ -117,106 +123,855 @@ theorem markAll_hist (target : TState) (site : String) (htt : target.terminal = 
       split at e
       · cases e
       · rename_i hl
-        exact cont _ .running hl rfl rfl rfl rfl e
+        refine cont _ .running hl rfl ?_ ?_ ?_ e <;> rfl
       · rename_i hl
-        exact cont _ .waiting hl rfl rfl rfl rfl e
+        refine cont _ .waiting hl rfl ?_ ?_ ?_ e <;> rfl
       · cases e
 
-theorem count_of_nodup {α : Type} [DecidableEq α] {l : List α} (h : l.Nodup) (x : α) :
-    l.count x = if x ∈ l then 1 else 0 := by
-  by_cases hx : x ∈ l
-  · simp [hx, List.count_eq_one_of_mem h hx]
-  · simp [hx, List.count_eq_zero_of_not_mem hx]
+/-! ### the job list as a finite map -/
 
-/-! ### the invariant -/
+theorem findJob_replaceJob (jobs : List Job) (b : Job) (j : Nat) :
+    findJob (replaceJob jobs b) j =
+      if j = b.id then (findJob jobs j).map (fun _ => b) else findJob jobs j := by
+  induction jobs with
+  | nil => simp [replaceJob, findJob]
+  | cons x rest ih =>
+    by_cases hx : x.id = b.id
+    · by_cases hj : j = b.id
+      · subst hj; simp [replaceJob, findJob, hx]
+      · have h1 : ¬ b.id = j := fun e => hj e.symm
+        have h2 : ¬ x.id = j := by rw [hx]; exact h1
+        simp only [replaceJob, hx, if_true, findJob, h1, if_false, ih, hj]
+    · by_cases hj : x.id = j
+      · have h1 : ¬ j = b.id := by rw [← hj]; exact hx
+        simp only [replaceJob, if_false, findJob, hj, if_true, h1]
+      · simp only [replaceJob, hx, if_false, findJob, hj, ih]
 
-/-- `evs` = all events so far. -/
-structure Hist (s : State) (evs : List Ev) : Prop where
-  /-- tasks of present jobs: exactly one terminal report iff terminal -/
-  present : ∀ job ∈ s.jobs, ∀ k st, lookup job.tasks k = some st →
-    termCount (job.id, k) evs = if st.terminal then 1 else 0
-  /-- ids of present jobs that are not (yet) tasks: never reported -/
-  absent : ∀ job ∈ s.jobs, ∀ k, lookup job.tasks k = none → termCount (job.id, k) evs = 0
-  /-- job ids not yet handed out: never reported -/
-  fresh : ∀ t : TaskId, t.1 ≥ s.jobCtr → termCount t evs = 0
-  /-- **at most one terminal report per task** (also for forgotten jobs) -/
-  once : ∀ t : TaskId, termCount t evs ≤ 1
+theorem findJob_append (jobs : List Job) (b : Job) (j : Nat) :
+    findJob (jobs ++ [b]) j =
+      match findJob jobs j with
+      | some a => some a
+      | none => if b.id = j then some b else none := by
+  induction jobs with
+  | nil => simp [findJob]
+  | cons x rest ih =>
+    by_cases hj : x.id = j
+    · simp [findJob, hj]
+    · simp only [List.cons_append, findJob, hj, if_false, ih]
 
-/-- a step that emits no terminal report and keeps every `lookup` of every present job (or only moves tasks
-between non-terminal states / adds unreported tasks) preserves the invariant; stated for a replaced job -/
-theorem Hist.replace {s : State} {evs evs' : List Ev} {job job' : Job} (h : Hist s evs) (hs : StateWF s)
-    (hj : s.getJob job.id = some job) (hid : job'.id = job.id)
-    (hev : ∀ t, termCount t evs' = if t.1 = job.id then
-        (match lookup job.tasks t.2, lookup job'.tasks t.2 with
-         | some a, some b => if !a.terminal && b.terminal then 1 else 0
-         | _, _ => 0) else 0)
-    (hmono : ∀ k a, lookup job.tasks k = some a → ∃ b, lookup job'.tasks k = some b ∧ (a.terminal = true → b = a))
-    (hnew : ∀ k b, lookup job.tasks k = none → lookup job'.tasks k = some b → b.terminal = false)
-    (sent : List TaskId) :
-    Hist { s.putJob job' with sent := sent } (evs ++ evs') := by
-  have hmem := (findJob_some hj).1
-  refine ⟨?_, ?_, ?_, ?_⟩
-  · intro x hx k st hl
-    rw [termCount_append]
-    rcases mem_replaceJob hx with rfl | hx
-    · -- the replaced job
-      rw [hid, hev]; simp only [if_true]
-      cases hb : lookup job.tasks k with
+theorem findJob_filter (jobs : List Job) (j k : Nat) :
+    findJob (jobs.filter (·.id != j)) k = if k = j then none else findJob jobs k := by
+  induction jobs with
+  | nil => simp [findJob]
+  | cons x rest ih =>
+    by_cases hx : x.id = j
+    · have : (x.id != j) = false := by simp [hx]
+      rw [List.filter_cons_of_neg (by simp [this]), ih]
+      by_cases hk : k = j
+      · simp [hk]
+      · have : ¬ x.id = k := by rw [hx]; exact fun e => hk e.symm
+        simp [findJob, hk, this]
+    · have : (x.id != j) = true := by simp [hx]
+      rw [List.filter_cons_of_pos (by simp [this])]
+      by_cases hk : x.id = k
+      · have : ¬ k = j := by rw [← hk]; exact hx
+        simp [findJob, hk, this]
+      · simp only [findJob, hk, if_false, ih]
+
+theorem replaceJob_replaceJob (jobs : List Job) (a b : Job) (h : a.id = b.id) :
+    replaceJob (replaceJob jobs a) b = replaceJob jobs b := by
+  induction jobs with
+  | nil => rfl
+  | cons x rest ih =>
+    by_cases hx : x.id = a.id
+    · have hx' : x.id = b.id := hx.trans h
+      simp only [replaceJob, hx, if_true, h, ih]
+    · have hx' : ¬ x.id = b.id := by rw [← h]; exact hx
+      simp only [replaceJob, hx, hx', if_false, ih]
+
+theorem findJob_of_mem {jobs : List Job} {job : Job} (hnd : (jobs.map (·.id)).Nodup) (h : job ∈ jobs) :
+    findJob jobs job.id = some job := by
+  induction jobs with
+  | nil => cases h
+  | cons x rest ih =>
+    simp only [List.map_cons, List.nodup_cons] at hnd
+    simp only [List.mem_cons] at h
+    rcases h with rfl | h
+    · simp [findJob]
+    · have : ¬ x.id = job.id := fun e => hnd.1 (List.mem_map.mpr ⟨job, h, e.symm⟩)
+      simp only [findJob, this, if_false]
+      exact ih hnd.2 h
+
+/-! ### every step as a sequence of elementary job transitions -/
+
+/-- events that carry no task outcome, no start and no job completion -/
+def Ev.quiet : Ev → Bool
+  | .jobOpen _ | .submit _ _ | .workerNew _ | .workerLost _ _ => true
+  | _ => false
+
+/-- the elementary transitions of one job, with the events they emit -/
+inductive JobOp : Job → Job → List Ev → Prop
+  | running {a b : Job} {t : Nat} (i : Nat) (ws : List Nat) (rv : Nat) :
+      a.setRunning t = .ok b → JobOp a b [.started (a.id, t) i ws rv]
+  | finished {a b : Job} {t : Nat} {e : List Ev} : a.setFinished t = .ok (b, e) → JobOp a b e
+  | failed {a b : Job} {t : Nat} {e : List Ev} : a.setFailed t = .ok (b, e) → JobOp a b e
+  | waiting {a b : Job} {t : Nat} : a.setWaiting t = .ok b → JobOp a b []
+  | cancel {a b : Job} {ids : List TaskId} {e : List Ev} : a.setCancel ids = .ok (b, e) → JobOp a b e
+  | abort {a b : Job} {ids : List TaskId} {e : List Ev} : a.abortTasks ids = .ok (b, e) → JobOp a b e
+  | attach {a b : Job} {ids : List Nat} : a.isOpen = true → a.attach ids = .ok b → JobOp a b [.submit a.id false]
+  | close {a : Job} : a.isOpen = true →
+      JobOp a { a with isOpen := false } ([.jobClose a.id] ++ ({ a with isOpen := false } : Job).checkTermination)
+
+theorem abortTasks_id {job job' : Job} {ids : List TaskId} {evs : List Ev}
+    (h : job.abortTasks ids = .ok (job', evs)) : job'.id = job.id := by
+  unfold Job.abortTasks at h
+  split at h
+  · cases h; rfl
+  · split at h
+    · cases h
+    · rename_i job1 hm
+      cases h
+      exact (markAll_id _ _ _ _ job1 hm)
+
+theorem JobOp.id_eq {a b : Job} {e : List Ev} (h : JobOp a b e) : b.id = a.id := by
+  cases h with
+  | running i ws rv hr => unfold Job.setRunning at hr; split at hr <;> cases hr <;> rfl
+  | finished hr => unfold Job.setFinished at hr; split at hr <;> cases hr; rfl
+  | failed hr => unfold Job.setFailed at hr; split at hr <;> cases hr <;> rfl
+  | waiting hr => unfold Job.setWaiting at hr; split at hr <;> cases hr; rfl
+  | cancel hr => exact setCancel_id hr
+  | abort hr => exact abortTasks_id hr
+  | attach _ hr => exact attach_id _ hr
+  | close _ => rfl
+
+theorem JobOp.wf {a b : Job} {e : List Ev} (h : JobOp a b e) (w : JobWF a) : JobWF b := by
+  cases h with
+  | running i ws rv hr => exact w.setRunning hr
+  | finished hr => exact w.setFinished hr
+  | failed hr => exact w.setFailed hr
+  | waiting hr => exact w.setWaiting hr
+  | cancel hr => exact w.setCancel hr
+  | abort hr => exact w.abortTasks hr
+  | attach _ hr => exact JobWF.attach _ w hr
+  | close _ => exact ⟨w.nodup, w.running, w.finished, w.failed, w.canceled, w.aborted⟩
+
+/-- a sequence of elementary transitions, each applied to the job currently stored under its id -/
+inductive Puts : List Job → List Job → List Ev → Prop
+  | nil (jobs : List Job) : Puts jobs jobs []
+  | cons {jobs jobs' : List Job} {a b : Job} {e e' : List Ev} :
+      findJob jobs a.id = some a → JobOp a b e → Puts (replaceJob jobs b) jobs' e' → Puts jobs jobs' (e ++ e')
+
+theorem Puts.one {jobs : List Job} {a b : Job} {e : List Ev} (hj : findJob jobs a.id = some a) (h : JobOp a b e) :
+    Puts jobs (replaceJob jobs b) e := by
+  have := Puts.cons hj h (Puts.nil _)
+  simpa using this
+
+/-- the shape of one `step`: what it does to the job list and the job counter (`sent` and `workers` play no
+role in the history properties) -/
+inductive Shape (s : State) (op : Op) (s' : State) (evs : List Ev) : Prop
+  /-- nothing happens to the jobs -/
+  | same (hj : s'.jobs = s.jobs) (hc : s'.jobCtr = s.jobCtr) (hq : ∀ x ∈ evs, x.quiet = true)
+  /-- a new job (open and empty, or closed with the tasks of a submit) gets the next id -/
+  | add (o : Bool) (mf : Option Nat) (ids : List Nat) (job : Job)
+      (ha : ({ id := s.jobCtr, isOpen := o, maxFails := mf } : Job).attach ids = .ok job)
+      (hj : s'.jobs = s.jobs ++ [job]) (hc : s'.jobCtr = s.jobCtr + 1)
+      (hq : ∀ x ∈ evs, x.quiet = true)
+      (ho : o = true ∨ ∃ mf' d, op = .submit none mf' d ∧ ids = (fillIdsNew d).jobIds)
+  /-- elementary transitions of stored jobs, followed by quiet events -/
+  | puts (e tail : List Ev) (hp : Puts s.jobs s'.jobs e) (hc : s'.jobCtr = s.jobCtr) (he : evs = e ++ tail)
+      (hq : ∀ x ∈ tail, x.quiet = true)
+  /-- a terminated job is dropped -/
+  | forget (j : Nat) (job : Job) (hj : findJob s.jobs j = some job) (ht : job.isTerminated = true)
+      (hjobs : s'.jobs = s.jobs.filter (·.id != j)) (hc : s'.jobCtr = s.jobCtr) (he : evs = [])
+
+theorem setWaitingAll_puts : ∀ (ts : List TaskId) {s s' : State}, s.setWaitingAll ts = .ok s' →
+    Puts s.jobs s'.jobs [] ∧ s'.jobCtr = s.jobCtr
+  | [], s, s', e => by simp only [State.setWaitingAll] at e; cases e; exact ⟨Puts.nil _, rfl⟩
+  | t :: rest, s, s', e => by
+    simp only [State.setWaitingAll] at e
+    split at e
+    · cases e
+    · rename_i job hj
+      split at e
+      · cases e
+      · rename_i job' hw
+        have hjid := getJob_id hj
+        have ih := setWaitingAll_puts rest e
+        refine ⟨?_, ih.2⟩
+        have hj' : findJob s.jobs job.id = some job := by rw [hjid]; exact hj
+        exact Puts.cons hj' (JobOp.waiting hw) ih.1
+
+theorem step_shape {s s' : State} {op : Op} {evs : List Ev} (e : step s op = .ok (s', evs)) :
+    Shape s op s' evs := by
+  cases op with
+  | openJob mf =>
+    simp only [step, State.openJob] at e
+    split at e
+    · cases e
+    · simp only [Except.map] at e
+      cases e
+      exact .add true mf [] _ rfl rfl rfl (by simp [Ev.quiet]) (.inl rfl)
+  | submit j mf d =>
+    simp only [step, State.submit] at e
+    split at e
+    · simp only [Except.map] at e; cases e; exact .same rfl rfl (by simp)
+    · split at e
+      · rename_i jid _
+        split at e
+        · simp only [Except.map] at e; cases e; exact .same rfl rfl (by simp)
+        · rename_i job hj
+          split at e
+          · simp only [Except.map] at e; cases e; exact .same rfl rfl (by simp)
+          · rename_i hopen
+            split at e
+            · simp only [Except.map] at e; cases e; exact .same rfl rfl (by simp)
+            · split at e
+              · simp only [Except.map] at e; cases e
+              · rename_i job' ha
+                simp only [Except.map] at e
+                cases e
+                have hjid := getJob_id hj
+                subst hjid
+                have hop : job.isOpen = true := by simpa using hopen
+                exact .puts _ [] (Puts.one hj (JobOp.attach hop ha)) rfl (by simp) (by simp)
+      · split at e
+        · simp only [Except.map] at e; cases e
+        · split at e
+          · simp only [Except.map] at e; cases e
+          · rename_i job' ha
+            simp only [Except.map] at e
+            cases e
+            exact .add false mf _ job' ha rfl rfl (by simp [Ev.quiet]) (.inr ⟨mf, d, rfl, rfl⟩)
+  | close j =>
+    simp only [step, State.closeJob] at e
+    split at e
+    · cases e; exact .same rfl rfl (by simp)
+    · rename_i job hj
+      split at e
+      · rename_i hop
+        cases e
+        have hjid := getJob_id hj
+        subst hjid
+        exact .puts _ [] (Puts.one hj (JobOp.close hop)) rfl (by simp) (by simp)
+      · cases e; exact .same rfl rfl (by simp)
+  | cancel j =>
+    simp only [step, State.cancelJob] at e
+    split at e
+    · simp only [Except.map] at e; cases e; exact .same rfl rfl (by simp)
+    · rename_i job hj
+      split at e
+      · simp only [Except.map] at e; cases e; exact .same rfl rfl (by simp)
+      · split at e
+        · simp only [Except.map] at e; cases e
+        · rename_i job' evs' hc
+          simp only [Except.map] at e
+          cases e
+          have hjid := getJob_id hj
+          have hj' : findJob s.jobs job.id = some job := by rw [hjid]; exact hj
+          exact .puts _ [] (Puts.one hj' (JobOp.cancel hc)) rfl (by simp) (by simp)
+  | forget j allowed =>
+    simp only [step, State.forgetJob] at e
+    split at e
+    · simp only [Except.map] at e; cases e; exact .same rfl rfl (by simp)
+    · rename_i job hj
+      split at e
+      · simp only [Except.map] at e; cases e; exact .same rfl rfl (by simp)
+      · rename_i ht
+        split at e
+        · simp only [Except.map] at e; cases e
+        · split at e
+          · simp only [Except.map] at e
+            cases e
+            exact .forget j job hj (by simpa using ht) rfl rfl rfl
+          · simp only [Except.map] at e; cases e; exact .same rfl rfl (by simp)
+  | started t i ws rv =>
+    obtain ⟨tj, tk⟩ := t
+    simp only [step, State.taskStarted] at e
+    split at e
+    · cases e
+    · rename_i job hj
+      split at e
+      · cases e
+      · rename_i job' hr
+        cases e
+        have hjid := getJob_id hj
+        subst hjid
+        exact .puts _ [] (Puts.one hj (JobOp.running i ws rv hr)) rfl (by simp) (by simp)
+  | finished t =>
+    simp only [step, State.taskFinished] at e
+    split at e
+    · cases e
+    · rename_i job hj
+      split at e
+      · cases e
+      · rename_i job' evs' hr
+        cases e
+        have hjid := getJob_id hj
+        have hj' : findJob s.jobs job.id = some job := by rw [hjid]; exact hj
+        exact .puts _ [] (Puts.one hj' (JobOp.finished hr)) rfl (by simp) (by simp)
+  | failed t cons =>
+    simp only [step, State.taskFailed] at e
+    split at e
+    · simp only [Except.map] at e; cases e
+    · rename_i job hj
+      have hjid := getJob_id hj
+      have hj' : findJob s.jobs job.id = some job := by rw [hjid]; exact hj
+      split at e
+      · simp only [Except.map] at e; cases e
+      · rename_i job1 ev1 ha
+        have id1 := abortTasks_id ha
+        split at e
+        · simp only [Except.map] at e; cases e
+        · rename_i job2 ev2 hf
+          have id2 : job2.id = job1.id := (JobOp.failed hf).id_eq
+          -- the first two phases as two consecutive puts
+          have hget1 : findJob (replaceJob s.jobs job1) job1.id = some job1 := by
+            rw [findJob_replaceJob, if_pos rfl, id1, hj']; rfl
+          have hrep : replaceJob (replaceJob s.jobs job1) job2 = replaceJob s.jobs job2 :=
+            replaceJob_replaceJob _ _ _ id2.symm
+          have p12 : Puts s.jobs (replaceJob s.jobs job2) (ev1 ++ ev2) := by
+            have := Puts.cons hj' (JobOp.abort ha) (Puts.one hget1 (JobOp.failed hf))
+            rw [hrep] at this
+            exact this
+          split at e
+          · split at e
+            · split at e
+              · simp only [Except.map] at e; cases e
+              · rename_i job3 ev3 ha3
+                simp only [Except.map] at e
+                cases e
+                have hget2 : findJob (replaceJob s.jobs job2) job2.id = some job2 := by
+                  rw [findJob_replaceJob, if_pos rfl, id2, id1, hj']; rfl
+                have p3 := Puts.one hget2 (JobOp.abort ha3)
+                have : ∀ {l1 l2 l3 : List Job} {e1 e2 : List Ev}, Puts l1 l2 e1 → Puts l2 l3 e2 →
+                    Puts l1 l3 (e1 ++ e2) := by
+                  intro l1 l2 l3 e1 e2 h1 h2
+                  induction h1 with
+                  | nil _ => simpa using h2
+                  | cons hj hop _ ih => rw [List.append_assoc]; exact Puts.cons hj hop (ih h2)
+                exact .puts _ [] (this p12 p3) rfl (by simp) (by simp)
+            · simp only [Except.map] at e; cases e
+              exact .puts _ [] p12 rfl (by simp) (by simp)
+          · simp only [Except.map] at e; cases e
+            exact .puts _ [] p12 rfl (by simp) (by simp)
+  | workerNew w =>
+    simp only [step, State.workerNew] at e
+    split at e
+    · cases e
+    · cases e; exact .same rfl rfl (by simp [Ev.quiet])
+  | workerLost w running reason =>
+    simp only [step, State.workerLost] at e
+    split at e
+    · cases e
+    · rename_i s1 hs
+      split at e
+      · cases e
+      · cases e
+        have := setWaitingAll_puts _ hs
+        exact .puts [] _ this.1 this.2 rfl (by simp [Ev.quiet])
+
+/-! ### C01: what an elementary job transition does to the terminal reports -/
+
+/-- expected number of terminal reports of a task whose state is `o` (`none` = the job has no such task) -/
+def ew : Option TState → Nat
+  | some st => if st.terminal then 1 else 0
+  | none => 0
+
+theorem ew_le_one (o : Option TState) : ew o ≤ 1 := by
+  cases o with
+  | none => simp [ew]
+  | some st => simp only [ew]; split <;> omega
+
+theorem mem_checkTermination {job : Job} {x : Ev} (h : x ∈ job.checkTermination) :
+    x = .jobIdle job.id ∨ x = .jobCompleted job.id := by
+  unfold Job.checkTermination at h
+  split at h
+  · split at h
+    · exact .inl (by simpa using h)
+    · exact .inr (by simpa using h)
+  · cases h
+
+theorem lookup_append (ts : List (Nat × TState)) (t : Nat) (v : TState) (k : Nat) :
+    lookup (ts ++ [(t, v)]) k =
+      match lookup ts k with
+      | some x => some x
+      | none => if t = k then some v else none := by
+  induction ts with
+  | nil => simp [lookup]
+  | cons p ps ih =>
+    obtain ⟨q, w⟩ := p
+    by_cases hq : q = k
+    · simp [lookup, hq]
+    · simp only [List.cons_append, lookup, hq, if_false, ih]
+
+/-- `attach_submit` only adds Waiting tasks under ids that were free -/
+theorem attach_lookup : ∀ (ids : List Nat) {a b : Job}, a.attach ids = .ok b → ∀ k,
+    lookup b.tasks k = lookup a.tasks k ∨ (lookup a.tasks k = none ∧ lookup b.tasks k = some .waiting)
+  | [], a, b, e, k => by simp only [Job.attach] at e; cases e; exact .inl rfl
+  | t :: rest, a, b, e, k => by
+    simp only [Job.attach] at e
+    split at e
+    · cases e
+    · rename_i hl
+      have ih := attach_lookup rest e k
+      simp only [lookup_append] at ih
+      cases hk : lookup a.tasks k with
+      | some x => simp only [hk] at ih; rcases ih with ih | ih
+                  · exact .inl ih
+                  · cases ih.1
       | none =>
-        rw [h.absent job hmem k hb, hl]
-        simp [hnew k st hb hl]
-      | some a =>
-        obtain ⟨b, hb', hstab⟩ := hmono k a hb
-        rw [hl] at hb'; cases hb'
-        rw [h.present job hmem k a hb, hl]
-        by_cases ha : a.terminal = true
-        · have := hstab ha; subst this; simp [ha]
-        · simp at ha; by_cases hst : st.terminal = true <;> simp [ha, hst]
-    · -- another job: untouched, and no event mentions it
-      have hne : x.id ≠ job.id := by
-        intro e
-        -- ids are unique
-        have : ∀ (jobs : List Job), (jobs.map (·.id)).Nodup → job ∈ jobs → x ∈ jobs → x.id = job.id → x = job := by
-          intro jobs
-          induction jobs with
-          | nil => intro _ hm; cases hm
-          | cons y ys ih =>
-            intro hnd h1 h2 heq
-            simp only [List.map_cons, List.nodup_cons] at hnd
-            simp only [List.mem_cons] at h1 h2
-            rcases h1 with rfl | h1 <;> rcases h2 with rfl | h2
-            · rfl
-            · exact absurd (List.mem_map.mpr ⟨x, h2, heq⟩) hnd.1
-            · exact absurd (List.mem_map.mpr ⟨job, h1, heq.symm⟩) hnd.1
-            · exact ih hnd.2 h1 h2 heq
-        have hxj := this s.jobs hs.ids hmem hx e
-        -- x = job, but x came from the untouched part; it still satisfies the claim through `present`
-        exact absurd rfl (by
-          intro _
-          -- contradiction is not available here; fall back to the direct argument below
-          exact (hxj ▸ rfl : True) |> fun _ => False.elim (by
-            -- replaceJob replaces every element with id = job'.id, so x ∈ replaceJob ... with x.id = job.id means x = job'
-            have : ∀ (jobs : List Job), x ∈ replaceJob jobs job' → x.id = job'.id → x = job' := by
-              intro jobs
-              induction jobs with
-              | nil => intro hm; simp [replaceJob] at hm
-              | cons y ys ih =>
-                intro hm heq
-                simp only [replaceJob] at hm
-                split at hm
-                · simp only [List.mem_cons] at hm
-                  rcases hm with rfl | hm
-                  · rfl
-                  · exact ih hm heq
-                · rename_i hy
-                  simp only [List.mem_cons] at hm
-                  rcases hm with rfl | hm
-                  · exact absurd heq hy
-                  · exact ih hm heq
-            sorry))
-      sorry
-  · sorry
-  · sorry
-  · sorry
+        simp only [hk] at ih
+        by_cases htk : t = k
+        · simp only [htk, if_true] at ih
+          rcases ih with ih | ih
+          · exact .inr ⟨rfl, ih⟩
+          · cases ih.1
+        · simp only [htk, if_false] at ih
+          rcases ih with ih | ih
+          · exact .inl ih
+          · exact .inr ⟨rfl, ih.2⟩
+
+/-- the effect of one elementary transition `a → b` with events `e` on reports, starts and finishes -/
+structure JT (a b : Job) (e : List Ev) : Prop where
+  /-- only tasks of this job are reported -/
+  other : ∀ t : TaskId, t.1 ≠ a.id → termCount t e = 0
+  /-- a task is reported exactly when it turns from non-terminal to terminal; terminal states stay -/
+  cnt : ∀ k, ew (lookup a.tasks k) + termCount (a.id, k) e = ew (lookup b.tasks k)
+  /-- a task becomes Running only together with a `started` event -/
+  run : ∀ k, lookup b.tasks k = some .running →
+    lookup a.tasks k = some .running ∨ ∃ i ws rv, Ev.started (a.id, k) i ws rv ∈ e
+  /-- a `finished` event is emitted only for a task that was Running -/
+  fin : ∀ t : TaskId, Ev.finished t ∈ e → t.1 = a.id ∧ lookup a.tasks t.2 = some .running
+
+theorem JT.of_same {a b : Job} {e : List Ev} (h : ∀ k, lookup b.tasks k = lookup a.tasks k)
+    (h0 : ∀ t, termCount t e = 0) (hf : ∀ t, Ev.finished t ∉ e) : JT a b e :=
+  ⟨fun t _ => h0 t, fun k => by rw [h0, h k]; rfl, fun k hk => .inl (by rw [← h k]; exact hk),
+   fun t ht => absurd ht (hf t)⟩
+
+/-- one task goes from a non-terminal state to a terminal one and is reported once -/
+theorem JT.single {a b : Job} {t : Nat} {st tgt : TState} {e : List Ev}
+    (hl : lookup a.tasks t = some st) (hst : st.terminal = false) (htgt : tgt.terminal = true)
+    (htasks : b.tasks = setState a.tasks t tgt)
+    (hcount : ∀ x, termCount x e = if x = (a.id, t) then 1 else 0)
+    (hfin : ∀ x, Ev.finished x ∈ e → x = (a.id, t) ∧ st = .running) : JT a b e := by
+  have hlk : ∀ k, lookup b.tasks k = if k = t then some tgt else lookup a.tasks k := by
+    intro k; rw [htasks, lookup_setState, hl]; rfl
+  refine ⟨?_, ?_, ?_, ?_⟩
+  · intro x hx
+    rw [hcount]
+    have : ¬ x = (a.id, t) := fun e => hx (by rw [e])
+    simp [this]
+  · intro k
+    rw [hcount, hlk]
+    by_cases hk : k = t
+    · subst hk; simp [hl, ew, hst, htgt]
+    · have : ¬ (a.id, k) = (a.id, t) := fun e => hk (Prod.mk.inj e).2
+      simp [hk, this]
+  · intro k hk
+    rw [hlk] at hk
+    by_cases hkt : k = t
+    · simp only [hkt, if_true] at hk
+      cases hk; cases htgt
+    · simp only [hkt, if_false] at hk; exact .inl hk
+  · intro x hx
+    obtain ⟨rfl, rfl⟩ := hfin x hx
+    exact ⟨rfl, hl⟩
+
+/-- a batch of tasks goes from non-terminal states to a terminal one, each reported once -/
+theorem JT.mark {a b' b : Job} {ids : List TaskId} {tgt : TState} {e : List Ev}
+    (h : MarkHist tgt a b' ids) (hb : b.tasks = b'.tasks) (htgt : tgt.terminal = true)
+    (hcount : ∀ x, termCount x e = ids.count x) (hfin : ∀ x, Ev.finished x ∉ e) : JT a b e := by
+  refine ⟨?_, ?_, ?_, fun x hx => absurd hx (hfin x)⟩
+  · intro x hx
+    rw [hcount]
+    exact List.count_eq_zero_of_not_mem fun hm => hx (h.own x hm)
+  · intro k
+    rw [hcount, hb, h.nodup.count]
+    by_cases hm : (a.id, k) ∈ ids
+    · obtain ⟨st, hl, hst⟩ := h.before _ hm
+      have := h.after _ hm
+      simp only at hl this
+      simp [hm, hl, this, ew, hst, htgt]
+    · simp [hm, h.other k hm]
+  · intro k hk
+    rw [hb] at hk
+    by_cases hm : (a.id, k) ∈ ids
+    · have := h.after _ hm
+      simp only at this
+      rw [this] at hk; cases hk; cases htgt
+    · rw [h.other k hm] at hk; exact .inl hk
+
+theorem termCount_cons (t : TaskId) (x : Ev) (l : List Ev) : termCount t (x :: l) = mentions t x + termCount t l := by
+  simp [termCount]
+
+theorem termCount_nil (t : TaskId) : termCount t [] = 0 := rfl
+
+theorem finished_mem_checkTermination {job : Job} {x : TaskId} : Ev.finished x ∉ job.checkTermination := by
+  intro h; rcases mem_checkTermination h with h | h <;> cases h
+
+theorem JobOp.jt {a b : Job} {e : List Ev} (h : JobOp a b e) : JT a b e := by
+  cases h with
+  | @running _ t i ws rv hr =>
+    unfold Job.setRunning at hr
+    split at hr
+    · cases hr
+    · rename_i hl
+      cases hr
+      have hlk : ∀ k, lookup (setState a.tasks t .running) k = if k = t then some .running else lookup a.tasks k := by
+        intro k; rw [lookup_setState, hl]; rfl
+      refine ⟨fun t _ => by simp [termCount, mentions], ?_, ?_, fun t ht => by simp at ht⟩
+      · intro k
+        simp only [hlk]
+        by_cases hk : k = t
+        · subst hk; simp [hl, ew, TState.terminal, termCount, mentions]
+        · simp [hk, termCount, mentions]
+      · intro k hk
+        simp only [hlk] at hk
+        by_cases hkt : k = t
+        · subst hkt; exact .inr ⟨i, ws, rv, by simp⟩
+        · simp only [hkt, if_false] at hk; exact .inl hk
+    · cases hr
+      exact JT.of_same (fun _ => rfl) (fun t => by simp [termCount, mentions]) (fun t ht => by simp at ht)
+  | @finished _ t _ hr =>
+    unfold Job.setFinished at hr
+    split at hr
+    · cases hr
+    · rename_i hl
+      cases hr
+      refine JT.single hl rfl (tgt := .finished) rfl rfl ?_ ?_
+      · intro x
+        rw [List.singleton_append, termCount_cons, termCount_checkTermination]
+        simp only [mentions, Nat.add_zero]
+        by_cases hx : x = (a.id, t)
+        · subst hx; simp
+        · have : ¬ (a.id, t) = x := fun e => hx e.symm
+          simp [hx, this]
+      · intro x hx
+        simp only [List.singleton_append, List.mem_cons] at hx
+        rcases hx with hx | hx
+        · cases hx; exact ⟨rfl, rfl⟩
+        · exact absurd hx finished_mem_checkTermination
+    · cases hr
+  | failed hr =>
+    unfold Job.setFailed at hr
+    have key : ∀ (st : TState) (t : Nat) (b : Job), lookup a.tasks t = some st → st.terminal = false →
+        b.tasks = setState a.tasks t .failed → JT a b ([.failed (a.id, t)] ++ b.checkTermination) := by
+      intro st t b hl hst hb
+      refine JT.single hl hst (tgt := .failed) rfl hb ?_ ?_
+      · intro x
+        rw [List.singleton_append, termCount_cons, termCount_checkTermination]
+        simp only [mentions, Nat.add_zero]
+        by_cases hx : x = (a.id, t)
+        · subst hx; simp
+        · have : ¬ (a.id, t) = x := fun e => hx e.symm
+          simp [hx, this]
+      · intro x hx
+        simp only [List.singleton_append, List.mem_cons] at hx
+        rcases hx with hx | hx
+        · cases hx
+        · exact absurd hx finished_mem_checkTermination
+    split at hr
+    · cases hr
+    · rename_i hl; cases hr; exact key _ _ _ hl rfl rfl
+    · rename_i hl; cases hr; exact key _ _ _ hl rfl rfl
+    · cases hr
+  | @waiting _ t hr =>
+    unfold Job.setWaiting at hr
+    split at hr
+    · cases hr
+    · rename_i hl
+      cases hr
+      have hlk : ∀ k, lookup (setState a.tasks t .waiting) k = if k = t then some .waiting else lookup a.tasks k := by
+        intro k; rw [lookup_setState, hl]; rfl
+      refine ⟨fun t _ => rfl, ?_, ?_, fun t ht => by simp at ht⟩
+      · intro k
+        simp only [hlk]
+        by_cases hk : k = t
+        · subst hk; simp [hl, ew, TState.terminal, termCount]
+        · simp [hk, termCount]
+      · intro k hk
+        simp only [hlk] at hk
+        by_cases hkt : k = t
+        · simp only [hkt, if_true] at hk; cases hk
+        · simp only [hkt, if_false] at hk; exact .inl hk
+    · cases hr
+  | cancel hr =>
+    unfold Job.setCancel at hr
+    split at hr
+    · cases hr
+      exact JT.of_same (fun _ => rfl) (fun t => rfl) (fun t ht => by simp at ht)
+    · split at hr
+      · cases hr
+      · rename_i job1 hm
+        cases hr
+        refine JT.mark (markAll_hist .canceled _ rfl _ _ _ hm) rfl rfl ?_ ?_
+        · intro x
+          simp [termCount_cons, termCount_checkTermination, mentions]
+        · intro x hx
+          simp only [List.mem_append, List.mem_cons, List.not_mem_nil, or_false] at hx
+          rcases hx with (hx | hx) | hx
+          · cases hx
+          · cases hx
+          · exact absurd hx finished_mem_checkTermination
+  | abort hr =>
+    unfold Job.abortTasks at hr
+    split at hr
+    · cases hr
+      exact JT.of_same (fun _ => rfl) (fun t => rfl) (fun t ht => by simp at ht)
+    · split at hr
+      · cases hr
+      · rename_i job1 hm
+        cases hr
+        refine JT.mark (markAll_hist .aborted _ rfl _ _ _ hm) rfl rfl ?_ ?_
+        · intro x
+          simp [termCount_cons, termCount_checkTermination, mentions]
+        · intro x hx
+          simp only [List.mem_append, List.mem_cons, List.not_mem_nil, or_false] at hx
+          rcases hx with hx | hx
+          · cases hx
+          · exact absurd hx finished_mem_checkTermination
+  | attach _ hr =>
+    have hl := attach_lookup _ hr
+    refine ⟨fun t _ => by simp [termCount, mentions], ?_, ?_, fun t ht => by simp at ht⟩
+    · intro k
+      have : termCount (a.id, k) [Ev.submit a.id false] = 0 := by simp [termCount, mentions]
+      rw [this]
+      rcases hl k with h | h
+      · rw [h]; rfl
+      · rw [h.1, h.2]; rfl
+    · intro k hk
+      rcases hl k with h | h
+      · exact .inl (by rw [← h]; exact hk)
+      · rw [h.2] at hk; cases hk
+  | close _ =>
+    refine JT.of_same (fun _ => rfl) ?_ ?_
+    · intro t
+      rw [List.singleton_append, termCount_cons, termCount_checkTermination]; rfl
+    · intro t ht
+      simp only [List.singleton_append, List.mem_cons] at ht
+      rcases ht with ht | ht
+      · cases ht
+      · exact absurd ht finished_mem_checkTermination
+
+/-! ### C01: the history invariant -/
+
+/-- every `finished` report in `evs` has a `started` report of the same task before it -/
+def Ordered (evs : List Ev) : Prop :=
+  ∀ t pre post, evs = pre ++ Ev.finished t :: post → ∃ i ws rv, Ev.started t i ws rv ∈ pre
+
+theorem Ordered.append {evs e : List Ev} (h : Ordered evs)
+    (hf : ∀ t, Ev.finished t ∈ e → ∃ i ws rv, Ev.started t i ws rv ∈ evs) : Ordered (evs ++ e) := by
+  intro t pre post heq
+  rcases List.append_eq_append_iff.mp heq with ⟨a', hpre, he⟩ | ⟨c', hevs, hpost⟩
+  · obtain ⟨i, ws, rv, hm⟩ := hf t (by rw [he]; simp)
+    exact ⟨i, ws, rv, by rw [hpre]; exact List.mem_append_left _ hm⟩
+  · cases c' with
+    | nil =>
+      simp only [List.nil_append] at hpost
+      simp only [List.append_nil] at hevs
+      obtain ⟨i, ws, rv, hm⟩ := hf t (by rw [← hpost]; simp)
+      exact ⟨i, ws, rv, by rw [← hevs]; exact hm⟩
+    | cons y c'' =>
+      simp only [List.cons_append, List.cons.injEq] at hpost
+      obtain ⟨rfl, _⟩ := hpost
+      exact h t pre c'' hevs
+
+/-- The invariant, over the job list, the job-id counter and ALL events emitted so far. -/
+structure Hist (jobs : List Job) (ctr : Nat) (evs : List Ev) : Prop where
+  /-- ids of stored jobs were handed out by the counter -/
+  below : ∀ j a, findJob jobs j = some a → j < ctr
+  /-- stored jobs: a task (or a free task id) has exactly the reports its state says -/
+  cnt : ∀ j a, findJob jobs j = some a → ∀ k, termCount (j, k) evs = ew (lookup a.tasks k)
+  /-- job ids not yet handed out: never reported -/
+  fresh : ∀ t : TaskId, ctr ≤ t.1 → termCount t evs = 0
+  /-- **at most one terminal report per task**, also for the tasks of forgotten jobs -/
+  once : ∀ t : TaskId, termCount t evs ≤ 1
+  /-- a Running task has been reported as started -/
+  started : ∀ j a k, findJob jobs j = some a → lookup a.tasks k = some .running →
+    ∃ i ws rv, Ev.started (j, k) i ws rv ∈ evs
+  /-- every finish is preceded by a start -/
+  order : Ordered evs
+
+theorem Hist.init : Hist [] 1 [] := by
+  refine ⟨?_, ?_, fun _ _ => rfl, fun _ => by simp [termCount], ?_, ?_⟩
+  · intro _ _ h; cases h
+  · intro _ _ h; cases h
+  · intro _ _ _ h; cases h
+  · intro t pre post h; simp at h
+
+theorem termCount_quiet {e : List Ev} (hq : ∀ x ∈ e, x.quiet = true) (t : TaskId) : termCount t e = 0 := by
+  induction e with
+  | nil => rfl
+  | cons x xs ih =>
+    rw [termCount_cons, ih fun y hy => hq y (List.mem_cons_of_mem _ hy)]
+    have := hq x (by simp)
+    cases x <;> simp [Ev.quiet] at this <;> rfl
+
+theorem Hist.quiet {jobs : List Job} {ctr : Nat} {evs e : List Ev} (h : Hist jobs ctr evs)
+    (hq : ∀ x ∈ e, x.quiet = true) : Hist jobs ctr (evs ++ e) := by
+  have h0 := termCount_quiet hq
+  refine ⟨h.below, ?_, ?_, ?_, ?_, ?_⟩
+  · intro j a hj k; rw [termCount_append, h0, h.cnt j a hj k]; rfl
+  · intro t ht; rw [termCount_append, h0, h.fresh t ht]
+  · intro t; rw [termCount_append, h0]; exact h.once t
+  · intro j a k hj hl
+    obtain ⟨i, ws, rv, hm⟩ := h.started j a k hj hl
+    exact ⟨i, ws, rv, List.mem_append_left _ hm⟩
+  · refine h.order.append ?_
+    intro t ht
+    have := hq _ ht
+    simp [Ev.quiet] at this
+
+/-- one elementary transition of a stored job -/
+theorem Hist.put {jobs : List Job} {ctr : Nat} {evs e : List Ev} {a b : Job} (h : Hist jobs ctr evs)
+    (hj : findJob jobs a.id = some a) (hop : JobOp a b e) : Hist (replaceJob jobs b) ctr (evs ++ e) := by
+  have hid := hop.id_eq
+  have jt := hop.jt
+  have hlt := h.below _ _ hj
+  -- what is stored after the replacement
+  have hfind : ∀ j x, findJob (replaceJob jobs b) j = some x →
+      (j = a.id ∧ x = b) ∨ (j ≠ a.id ∧ findJob jobs j = some x) := by
+    intro j x hx
+    rw [findJob_replaceJob, hid] at hx
+    by_cases hja : j = a.id
+    · subst hja
+      rw [if_pos rfl, hj] at hx
+      exact .inl ⟨rfl, (Option.some.inj hx).symm⟩
+    · rw [if_neg hja] at hx; exact .inr ⟨hja, hx⟩
+  refine ⟨?_, ?_, ?_, ?_, ?_, ?_⟩
+  · intro j x hx
+    rcases hfind j x hx with ⟨rfl, _⟩ | ⟨_, hx⟩
+    · exact hlt
+    · exact h.below j x hx
+  · intro j x hx k
+    rw [termCount_append]
+    rcases hfind j x hx with ⟨rfl, rfl⟩ | ⟨hne, hx⟩
+    · rw [h.cnt _ _ hj k]; exact jt.cnt k
+    · rw [h.cnt j x hx k, jt.other (j, k) hne]; rfl
+  · intro t ht
+    rw [termCount_append, h.fresh t ht, jt.other t (by omega)]
+  · intro t
+    rw [termCount_append]
+    by_cases hta : t.1 = a.id
+    · obtain ⟨tj, tk⟩ := t
+      simp only at hta
+      subst hta
+      rw [h.cnt _ _ hj tk, jt.cnt tk]
+      exact ew_le_one _
+    · rw [jt.other t hta]; exact h.once t
+  · intro j x k hx hl
+    rcases hfind j x hx with ⟨rfl, rfl⟩ | ⟨_, hx⟩
+    · rcases jt.run k hl with hr | ⟨i, ws, rv, hm⟩
+      · obtain ⟨i, ws, rv, hm⟩ := h.started _ _ k hj hr
+        exact ⟨i, ws, rv, List.mem_append_left _ hm⟩
+      · exact ⟨i, ws, rv, List.mem_append_right _ hm⟩
+    · obtain ⟨i, ws, rv, hm⟩ := h.started j x k hx hl
+      exact ⟨i, ws, rv, List.mem_append_left _ hm⟩
+  · refine h.order.append ?_
+    intro t ht
+    obtain ⟨h1, h2⟩ := jt.fin t ht
+    obtain ⟨tj, tk⟩ := t
+    simp only at h1 h2
+    subst h1
+    exact h.started _ _ tk hj h2
+
+theorem Hist.puts {jobs jobs' : List Job} {ctr : Nat} {evs e : List Ev} (hp : Puts jobs jobs' e) :
+    Hist jobs ctr evs → Hist jobs' ctr (evs ++ e) := by
+  induction hp generalizing evs with
+  | nil _ => intro h; simpa using h
+  | cons hj hop _ ih =>
+    intro h
+    rw [← List.append_assoc]
+    exact ih (h.put hj hop)
+
+/-- a new job whose tasks are all Waiting gets the next id -/
+theorem Hist.add {jobs : List Job} {ctr : Nat} {evs : List Ev} {job : Job} (h : Hist jobs ctr evs)
+    (hid : job.id = ctr) (hw : ∀ k, lookup job.tasks k = none ∨ lookup job.tasks k = some .waiting) :
+    Hist (jobs ++ [job]) (ctr + 1) evs := by
+  have hfind : ∀ j x, findJob (jobs ++ [job]) j = some x →
+      findJob jobs j = some x ∨ (j = ctr ∧ x = job) := by
+    intro j x hx
+    rw [findJob_append] at hx
+    cases hf : findJob jobs j with
+    | some y => rw [hf] at hx; exact .inl hx
+    | none =>
+      rw [hf] at hx
+      simp only at hx
+      split at hx
+      · rename_i hjj; exact .inr ⟨by rw [← hid, hjj], (Option.some.inj hx).symm⟩
+      · cases hx
+  refine ⟨?_, ?_, ?_, h.once, ?_, h.order⟩
+  · intro j x hx
+    rcases hfind j x hx with hx | ⟨rfl, _⟩
+    · have := h.below j x hx; omega
+    · omega
+  · intro j x hx k
+    rcases hfind j x hx with hx | ⟨rfl, rfl⟩
+    · exact h.cnt j x hx k
+    · rw [h.fresh (j, k) (Nat.le_refl _)]
+      rcases hw k with hk | hk <;> rw [hk] <;> rfl
+  · intro t ht; exact h.fresh t (by omega)
+  · intro j x k hx hl
+    rcases hfind j x hx with hx | ⟨rfl, rfl⟩
+    · exact h.started j x k hx hl
+    · rcases hw k with hk | hk <;> rw [hk] at hl <;> cases hl
+
+/-- dropping a job: only "at most once" survives for its tasks -/
+theorem Hist.forget {jobs : List Job} {ctr : Nat} {evs : List Ev} (h : Hist jobs ctr evs) (j : Nat) :
+    Hist (jobs.filter (·.id != j)) ctr evs := by
+  have hfind : ∀ k x, findJob (jobs.filter (·.id != j)) k = some x → findJob jobs k = some x := by
+    intro k x hx
+    rw [findJob_filter] at hx
+    split at hx
+    · cases hx
+    · exact hx
+  exact ⟨fun k x hx => h.below k x (hfind k x hx), fun k x hx => h.cnt k x (hfind k x hx), h.fresh, h.once,
+    fun k x t hx => h.started k x t (hfind k x hx), h.order⟩
+
+theorem Hist.step {s s' : State} {op : Op} {acc e : List Ev} (h : Hist s.jobs s.jobCtr acc)
+    (hs : step s op = .ok (s', e)) : Hist s'.jobs s'.jobCtr (acc ++ e) := by
+  cases step_shape hs with
+  | same hj hc hq => rw [hj, hc]; exact h.quiet hq
+  | add o mf ids job ha hj hc hq ho =>
+    rw [hj, hc]
+    refine (h.add (attach_id _ ha) ?_).quiet hq
+    intro k
+    rcases attach_lookup _ ha k with hk | hk
+    · exact .inl hk
+    · exact .inr hk.2
+  | puts e1 tail hp hc he hq =>
+    rw [hc, he, ← List.append_assoc]
+    exact (h.puts hp).quiet hq
+  | forget j job hj ht hjobs hc he =>
+    rw [hjobs, hc, he, List.append_nil]
+    exact h.forget j
+
+/-- runs: an invariant over (jobs, counter, all events so far) that every step preserves holds at the end -/
+theorem run_invariant (I : List Job → Nat → List Ev → Prop) (P : Op → Prop)
+    (hstep : ∀ (s s' : State) (op : Op) (acc e : List Ev), P op → StateWF s → step s op = .ok (s', e) →
+      I s.jobs s.jobCtr acc → I s'.jobs s'.jobCtr (acc ++ e)) :
+    ∀ (ops : List Op) (s s' : State) (acc evs : List Ev), (∀ op ∈ ops, P op) → StateWF s →
+      run s ops = .ok (s', evs) → I s.jobs s.jobCtr acc → I s'.jobs s'.jobCtr (acc ++ evs)
+  | [], s, s', acc, evs, _, _, e, h => by
+    simp only [run] at e; cases e; simpa using h
+  | op :: ops, s, s', acc, evs, hP, hw, e, h => by
+    simp only [run] at e
+    split at e
+    · cases e
+    · rename_i s1 ev1 hs
+      split at e
+      · cases e
+      · rename_i s2 ev2 hr
+        cases e
+        rw [← List.append_assoc]
+        exact run_invariant I P hstep ops s1 _ _ _ (fun o ho => hP o (List.mem_cons_of_mem _ ho)) (step_wf hw hs) hr
+          (hstep s s1 op acc ev1 (hP op (by simp)) hw hs h)
+
+/-- the history invariant holds after every run from the empty server state -/
+theorem run_hist {ops : List Op} {s : State} {evs : List Ev} (h : run {} ops = .ok (s, evs)) :
+    Hist s.jobs s.jobCtr evs := by
+  have := run_invariant Hist (fun _ => True) (fun s s' op acc e _ _ hs hi => hi.step hs) ops {} s [] evs
+    (fun _ _ => trivial) init_wf h Hist.init
+  simpa using this
 
 end HqModel.Job
